@@ -32,7 +32,7 @@ def _pow(a, b):
     if isinstance(a, int) and isinstance(b, int) and not isinstance(a, bool) and 0 <= b <= 70000 and abs(a) <= 1 << 64:
         return a ** b
     raise Unknown('power outside the evaluator\'s range')
-_STR_METHODS = ('startswith', 'endswith', 'find', 'strip', 'lower', 'upper', 'rindex', 'index', 'split', 'rfind', 'lstrip', 'rstrip', 'ljust', 'rjust', 'replace', 'isdigit', 'count', 'rsplit', 'partition', 'rpartition', 'casefold', 'title', 'capitalize', 'zfill', 'isalpha', 'isalnum', 'isspace', 'removeprefix', 'removesuffix')
+_STR_METHODS = ('startswith', 'endswith', 'find', 'strip', 'lower', 'upper', 'rindex', 'index', 'split', 'rfind', 'lstrip', 'rstrip', 'ljust', 'rjust', 'replace', 'isdigit', 'count', 'rsplit', 'partition', 'rpartition', 'casefold', 'title', 'capitalize', 'zfill', 'isalpha', 'isalnum', 'isspace', 'isascii', 'isprintable', 'removeprefix', 'removesuffix')
 
 
 def _has_opaque(v, depth=0):
